@@ -388,6 +388,7 @@ def run_case(case, ctx):
     if case[0] == 'templates':
         return run_templates(case, ctx)
     _, calls, cached = case
+    ctx.M1.lambdas.clear()         # lambdas of earlier histories are of no interest (and keep their names mappings alive)
     P = ctx.SqParser(parse_cache={}) if cached else ctx.SqParser()
     M7 = monitors.TokenMonitor(P)
     persist = {'persistA': fresh_names(0), 'persistB': fresh_names(3)}
